@@ -12,6 +12,7 @@ import (
 	"net/http"
 	"os"
 	"strconv"
+	"strings"
 	"time"
 	"unsafe"
 
@@ -535,8 +536,13 @@ func (res *Response) eoncodeHead() {
 
 	res.trailer = map[string]string{}
 	trailers := res.header[trailerHeader]
-	for _, k := range trailers {
-		res.trailer[k] = ""
+	for _, names := range trailers {
+		// the field is a comma-separated list of field names.
+		for _, k := range strings.Split(names, ",") {
+			if k = http.CanonicalHeaderKey(strings.TrimSpace(k)); k != "" {
+				res.trailer[k] = ""
+			}
+		}
 	}
 	for k, vv := range res.header {
 		if _, ok := res.trailer[k]; !ok {
